@@ -52,7 +52,9 @@ func runC10Lengths(res *Result, drv *DriverPool, tier string, seed int64) {
 		if r.Bool(2, 3) {
 			// shorthand-shaped: one to five values, mostly plain decimals with or without a unit, separated by white space of
 			// every kind
-			ws := func() string { return r.Pick([]string{" ", " ", " ", "  ", "\t", "\n", " \r\n ", "\v", "\f", "\u00a0", "\u2003", "\u3000", "\u0085"}) }
+			ws := func() string {
+				return r.Pick([]string{" ", " ", " ", "  ", "\t", "\n", " \r\n ", "\v", "\f", "\u00a0", "\u2003", "\u3000", "\u0085"})
+			}
 			if r.Bool(1, 4) {
 				b.WriteString(ws())
 			}
